@@ -155,7 +155,10 @@ CHECKS = {
                 "is the source's error, or a syntax error found before the end of the delivered data was seen, which is then reported on "
                 "every continuation of the data; a non-failing source never yields an I/O error. The same end-to-end theorems hold for the "
                 "AIGER ascii/binary parsers (incl. the acceptors that bypass eof: remaining line / file content) and the BTOR2 parser, "
-                "where additionally every line handed out before the error ended at a line break (no truncated item).",
+                "where additionally every line handed out before the error ended at a line break (no truncated item). And the property's last "
+                "sentence (FailPrefix*.v): for the cnf/wcnf/gcnf, AIGER ascii/binary and BTOR2 parsers the items handed out on a failing "
+                "source are a prefix of the items handed out on the same data with a clean end (both runs arbitrary admissible runs), "
+                "and a header handed out is the same header.",
         "design_ref": "DESIGN.md 2/C04",
         "note": "Trusted: as C01/C02. Defects D6, D8, D11, D12 (I/O error lost) were found by this check and fixed in /repo.",
         "technique": "Coq proof (reader invariant, determinism of give-up programs, prefix monotonicity by induction on programs) + "
